@@ -587,3 +587,84 @@ def fold_known_switches(f):
         b['term'] = {'t': 'goto', 'to': tgt}
         n += 1
     return n
+
+
+def direct_stores(f):
+    """A store through a unique reference to a local — `*r = v` with `r = &mut x`, also when `r` is read out of the
+    environment of a closure built here (`*(*env).0 = v`: the body of a lowered for_each / fold closure updating a
+    captured `mut` local) — is a store to that local: the place is rewritten, so that the local's definitions include
+    it (the reads are resolved by the expression layer already).  Only single-definition reference temporaries and
+    field-only referents are followed (`&mut x.a`, not `&mut v[i]`)."""
+    blocks = f['blocks']
+    argc = f.get('argc', 0)
+    defs = {}
+    partial = set()
+    for b in blocks:
+        for st in b['stmts']:
+            if st['s'] == 'assign':
+                if st['pl']['p']:
+                    if not any(p['k'] == 'deref' for p in st['pl']['p']):
+                        partial.add(st['pl']['l'])
+                else:
+                    defs.setdefault(st['pl']['l'], []).append(st['rv'])
+        t = b['term']
+        if t['t'] == 'call':
+            if t['dest']['p']:
+                if not any(p['k'] == 'deref' for p in t['dest']['p']):
+                    partial.add(t['dest']['l'])
+            else:
+                defs.setdefault(t['dest']['l'], []).append(None)
+
+    def single(l):
+        d = defs.get(l, [])
+        return d[0] if len(d) == 1 and d[0] is not None and l not in partial and l > argc else None
+
+    def resolve(pl):
+        l, ps = pl['l'], list(pl['p'])
+        changed = False
+        for _ in range(14):
+            if not ps:
+                break
+            rv = single(l)
+            if rv is None:
+                break
+            k = ps[0]['k']
+            if k == 'deref' and rv['r'] == 'ref' and all(q['k'] == 'field' for q in rv['pl']['p']):
+                l, ps = rv['pl']['l'], list(rv['pl']['p']) + ps[1:]
+                changed = True
+            elif k == 'deref' and rv['r'] == 'ref' and rv['pl']['p'] and rv['pl']['p'][0]['k'] == 'deref' and all(q['k'] == 'field' for q in rv['pl']['p'][1:]):
+                # a reborrow `&mut (*r).a`
+                l, ps = rv['pl']['l'], list(rv['pl']['p']) + ps[1:]
+                changed = True
+            elif k == 'deref' and rv['r'] == 'use' and rv['a'].get('o') in ('copy', 'move') and all(q['k'] in ('deref', 'field') for q in rv['a']['pl']['p']):
+                # the reference was moved / copied out of another place (`r2 = move r`, `r2 = (*env).1`)
+                l, ps = rv['a']['pl']['l'], list(rv['a']['pl']['p']) + ps
+                changed = True
+            elif k == 'field' and rv['r'] == 'agg' and rv['kind'].get('k') in ('closure', 'tuple') and ps[0]['i'] < len(rv.get('ops', [])):
+                op = rv['ops'][ps[0]['i']]
+                if op.get('o') not in ('copy', 'move') or op['pl']['p'] or single(op['pl']['l']) is None:
+                    break
+                l, ps = op['pl']['l'], ps[1:]
+                changed = True
+            else:
+                break
+        if not changed or any(p['k'] == 'deref' for p in ps):
+            return None
+        out = dict(pl)
+        out['l'], out['p'] = l, ps
+        return out
+    n = 0
+    for b in blocks:
+        for st in b['stmts']:
+            if st['s'] == 'assign' and any(p['k'] == 'deref' for p in st['pl']['p']):
+                np_ = resolve(st['pl'])
+                if np_ is not None:
+                    st['pl'] = np_
+                    n += 1
+        t = b['term']
+        if t['t'] == 'call' and any(p['k'] == 'deref' for p in t['dest']['p']):
+            np_ = resolve(t['dest'])
+            if np_ is not None:
+                t['dest'] = np_
+                n += 1
+    return n
